@@ -35,6 +35,9 @@ pub fn size_strategy() -> BoxedStrategy<usize> {
 pub struct TunnelCase {
     /// per request datagram: (size, reply sizes)
     pub exchanges: Vec<(usize, Vec<usize>)>,
+    /// the target listens on ::1 instead of a 127/8 address
+    #[serde(default)]
+    pub v6_target: bool,
 }
 
 pub struct TunnelFam;
@@ -53,7 +56,7 @@ impl Family for TunnelFam {
         "tunnel"
     }
     fn strategy(&self, _tier: Tier) -> BoxedStrategy<TunnelCase> {
-        proptest::collection::vec((size_strategy(), proptest::collection::vec(size_strategy(), 0..3)), 1..8).prop_map(|exchanges| TunnelCase { exchanges }).boxed()
+        (proptest::collection::vec((size_strategy(), proptest::collection::vec(size_strategy(), 0..3)), 1..8), proptest::bool::weighted(0.25)).prop_map(|(exchanges, v6_target)| TunnelCase { exchanges, v6_target }).boxed()
     }
     fn case_budget_s(&self) -> u64 {
         120
@@ -64,7 +67,14 @@ impl Family for TunnelFam {
         let r = with_world(|w| {
             w.rt.block_on(async {
                 let case = c;
-                let target = UdpTarget::start(IpAddr::V4(worker_ip_n(20))).await?;
+                let target = if case.v6_target {
+                    match UdpTarget::start(IpAddr::V6(std::net::Ipv6Addr::LOCALHOST)).await {
+                        Ok(t) => t,
+                        Err(_) => UdpTarget::start(IpAddr::V4(worker_ip_n(20))).await?,
+                    }
+                } else {
+                    UdpTarget::start(IpAddr::V4(worker_ip_n(20))).await?
+                };
                 let decoy = UdpTarget::start(IpAddr::V4(worker_ip_n(21))).await?;
                 let local = format!("{}:0", worker_ip());
                 let assoc = match tokio::time::timeout(Duration::from_secs(40), w.client.create_udp_proxy(&local, target.addr)).await {
@@ -79,7 +89,7 @@ impl Family for TunnelFam {
                     let before = target.count();
                     app.send_to(&payload, assoc).await.map_err(|e| infra(format!("app send of {size} bytes: {e}")))?;
                     let arrived = wait_until(10_000, || target.count() > before).await;
-                    ensure!(arrived, "C15.one", "datagram #{k} ({size} bytes) never reached the requested target");
+                    ensure!(arrived, "C15.one", "datagram #{k} ({size} bytes) never reached the requested target {}", target.addr);
                     tokio::time::sleep(Duration::from_millis(20)).await;
                     let got: Vec<(SocketAddr, Vec<u8>)> = target.received.lock().unwrap()[before..].to_vec();
                     ensure!(
@@ -120,6 +130,7 @@ impl Family for TunnelFam {
         out.class_if(big, "size>=256");
         out.class_if(case.exchanges.iter().any(|(s, _)| *s >= 65000), "near-udp-max");
         out.class_if(case.exchanges.iter().any(|(_, r)| r.len() >= 2), "several-replies");
+        out.class_if(case.v6_target, "ipv6-target");
         Ok(out)
     }
 }
